@@ -34,6 +34,9 @@ PackArgv(c) ==
 
 PackValueFlags == {"--builder", "-B", "--cache", "--path", "-p", "--pull-policy", "--buildpack", "-b", "--env", "-e"}
 PackBoolFlags  == {"--trust-builder", "--trust-extra-buildpacks"}
+\* short spellings denote the same options
+PackCanon(f) == CASE f = "-B" -> "--builder" [] f = "-p" -> "--path" [] f = "-b" -> "--buildpack" [] f = "-e" -> "--env" [] OTHER -> f
+RunCanon(f) == CASE f = "-e" -> "--env" [] f = "-p" -> "--publish" [] f = "-v" -> "--volume" [] f = "-d" -> "--detach" [] OTHER -> f
 PackAcc0 == [error |-> "none", pos |-> <<>>, vals |-> <<>>, flags |-> {}]
 
 \* pack's grammar: flags may appear anywhere; a value flag consumes the next token whatever it
@@ -44,7 +47,7 @@ ParsePack(argv) ==
         IF i = 0 THEN [PackAcc0 EXCEPT !.pos = <<>>] @@ [skip |-> FALSE]
         ELSE LET a == g[i - 1]  t == argv[i] IN
              IF a.error # "none" THEN a
-             ELSE IF a.skip THEN [a EXCEPT !.skip = FALSE, !.vals = Append(@, <<argv[i - 1].s, t>>)]
+             ELSE IF a.skip THEN [a EXCEPT !.skip = FALSE, !.vals = Append(@, <<PackCanon(argv[i - 1].s), t>>)]
              ELSE IF i = 1 THEN (IF t.s = "build" /\ ~t.dash THEN a ELSE [a EXCEPT !.error = "not build"])
              ELSE IF t.dash /\ t.s \in PackValueFlags THEN
                     (IF i = Len(argv) THEN [a EXCEPT !.error = "flag without value"] ELSE [a EXCEPT !.skip = TRUE])
@@ -96,13 +99,13 @@ ParseRun(argv) ==
         ELSE LET a == g[i - 1]  t == argv[i] IN
              IF a.error # "none" THEN a
              ELSE IF a.image # <<>> THEN [a EXCEPT !.command = Append(@, t)]
-             ELSE IF a.skip THEN [a EXCEPT !.skip = FALSE, !.vals = Append(@, <<argv[i - 1].s, t>>)]
+             ELSE IF a.skip THEN [a EXCEPT !.skip = FALSE, !.vals = Append(@, <<RunCanon(argv[i - 1].s), t>>)]
              ELSE IF i = 1 THEN (IF t.s = "run" /\ ~t.dash THEN a ELSE [a EXCEPT !.error = "not run"])
              ELSE IF t.dash /\ t.s \in RunValueOpts THEN
                     (IF i = Len(argv) THEN [a EXCEPT !.error = "option without value"] ELSE [a EXCEPT !.skip = TRUE])
              ELSE IF t.dash /\ t.eqname \in RunValueOpts THEN       \* --option=value
                     [a EXCEPT !.vals = Append(@, <<t.eqname, W(t.eqval)>>)]
-             ELSE IF t.dash /\ t.s \in RunBoolOpts THEN [a EXCEPT !.flags = @ \cup {t.s}]
+             ELSE IF t.dash /\ t.s \in RunBoolOpts THEN [a EXCEPT !.flags = @ \cup {RunCanon(t.s)}]
              ELSE IF t.dash THEN [a EXCEPT !.error = "unknown option"]
              ELSE [a EXCEPT !.image = <<t>>]
   IN g[Len(argv)]
